@@ -311,7 +311,32 @@ func c17Corpus(entry string, rng *rand.Rand) [][]byte {
 	case "get-blockindex":
 		return [][]byte{s2.EncodeBetter(nil, blockIndexBytes(1)), s2.EncodeBetter(nil, blockIndexBytes(7))}
 	case "profile", "get-profile":
-		return [][]byte{profileBytes(), profileBytes()}
+		// the third one declares only two of the twelve known fields in its header (the format allows any subset)
+		short := func() []byte {
+			u16 := func(v uint16) []byte { return []byte{byte(v >> 8), byte(v)} }
+			u32 := func(v uint32) []byte { return []byte{byte(v >> 24), byte(v >> 16), byte(v >> 8), byte(v)} }
+			var b bytes.Buffer
+			b.WriteString("version ")
+			b.Write(u32(1))
+			b.WriteString("\nfields ")
+			b.Write(objects.NewStrListEncoder(false).Encode([]string{"name", "naCount"}))
+			b.WriteString("\nrowsCount ")
+			b.Write(u32(10))
+			b.WriteString("\ncolsCount ")
+			b.Write(u32(2))
+			b.WriteString("\ncolumns ")
+			for _, name := range []string{"a", "b"} {
+				b.Write(u16(1))
+				b.Write(u16(uint16(len(name))))
+				b.WriteString(name)
+				b.Write(u16(2))
+				b.Write(u32(7))
+				b.Write(u16(0))
+			}
+			b.WriteString("\n")
+			return b.Bytes()
+		}
+		return [][]byte{profileBytes(), profileBytes(), short()}
 	case "strlist-read", "strlist-readbytes", "validate-strlist":
 		return [][]byte{mon.EncodeStrList([]string{}), mon.EncodeStrList([]string{"a", "", "bcd"}), mon.EncodeStrList(mkRows(1, 6)[0])}
 	case "uintlist":
@@ -328,6 +353,56 @@ func c17Corpus(entry string, rng *rand.Rand) [][]byte {
 }
 
 var c17Boundary = []uint64{0, 1, 0x7F, 0x80, 0xFF, 0xFFFD, 0xFFFE, 0xFFFF, 0x7FFFFFFF, 0xFFFFFFFE, 0xFFFFFFFF}
+
+var c17Small = []uint64{2, 3, 4, 5, 6, 7, 8, 9, 10, 11, 12, 13, 14, 15, 16, 17}
+
+// c17Windows sets every window of the given widths to every given value; above the budget the (offset, width, value)
+// space is sampled with a fixed stride from a seeded start, so that all offsets are visited, not only the first ones.
+func c17Windows(valid []byte, widths []int, vals []uint64, name string, rng *rand.Rand, budget int, f func(in []byte, label string) bool) {
+	n := len(valid)
+	type combo struct {
+		off, w int
+		v      uint64
+	}
+	var all []combo
+	for off := 0; off < n; off++ {
+		for _, w := range widths {
+			if off+w > n {
+				continue
+			}
+			for _, v := range vals {
+				if w == 1 && v > 0xFF || w == 2 && v > 0xFFFF {
+					continue
+				}
+				all = append(all, combo{off, w, v})
+			}
+		}
+	}
+	step, start := 1, 0
+	if budget > 0 && len(all) > budget {
+		step = len(all)/budget + 1
+		// a stride coprime with the number of values per offset, so that every value meets every offset class
+		for step%2 == 0 || step%3 == 0 || step%5 == 0 || step%7 == 0 || step%11 == 0 {
+			step++
+		}
+		start = rng.Intn(step)
+	}
+	for i := start; i < len(all); i += step {
+		c := all[i]
+		m := append([]byte(nil), valid...)
+		switch c.w {
+		case 1:
+			m[c.off] = byte(c.v)
+		case 2:
+			binary.BigEndian.PutUint16(m[c.off:], uint16(c.v))
+		default:
+			binary.BigEndian.PutUint32(m[c.off:], uint32(c.v))
+		}
+		if !f(m, fmt.Sprintf("%s@%d/w%d=%#x", name, c.off, c.w, c.v)) {
+			return
+		}
+	}
+}
 
 // c17Mutants enumerates the mutants of one valid encoding.
 func c17Mutants(valid []byte, mut string, rng *rand.Rand, budget int, f func(in []byte, label string) bool) {
@@ -354,35 +429,10 @@ func c17Mutants(valid []byte, mut string, rng *rand.Rand, budget int, f func(in 
 		}
 	case "field":
 		// every 1-, 2- and 4-byte window set to every boundary value: a superset of the count/length fields
-		cnt := 0
-		for off := 0; off < n; off++ {
-			for _, w := range []int{1, 2, 4} {
-				if off+w > n {
-					continue
-				}
-				for _, v := range c17Boundary {
-					if w == 1 && v > 0xFF || w == 2 && v > 0xFFFF {
-						continue
-					}
-					m := append([]byte(nil), valid...)
-					switch w {
-					case 1:
-						m[off] = byte(v)
-					case 2:
-						binary.BigEndian.PutUint16(m[off:], uint16(v))
-					default:
-						binary.BigEndian.PutUint32(m[off:], uint32(v))
-					}
-					cnt++
-					if budget > 0 && cnt > budget {
-						return
-					}
-					if !f(m, fmt.Sprintf("field@%d/w%d=%#x", off, w, v)) {
-						return
-					}
-				}
-			}
-		}
+		c17Windows(valid, []int{1, 2, 4}, c17Boundary, "field", rng, budget, f)
+	case "index":
+		// every 1- and 2-byte window set to every small value: tags, field numbers, indices into short tables
+		c17Windows(valid, []int{1, 2}, c17Small, "index", rng, budget, f)
 	case "field2":
 		// two fields at once: a forged leading count together with every later 16-bit window at a boundary value
 		cnt := 0
@@ -799,7 +849,7 @@ func init() {
 		Level:       "exploration",
 		MemLimitKB:  6 << 20,
 		Workers:     12,
-		Rule:        "for every decoder entry point (packfile reader loop, commit, table, block, block validation, string list read/readbytes/validation, block index, profile, uint list, pkt-line, objects.Get* through a store incl. the s2 layer) and ObjectReceiver.Receive: a seeded corpus of valid encodings is mutated structurally - every truncation, every single-bit flip (sampled above the budget), every 1/2/4-byte window set to {0,1,0x7F,0x80,0xFF,0xFFFF,2^31-1,2^32-1} (a superset of all count and length fields), slice duplication/deletion/junk splices - plus hand-made hostile headers; per input the oracle demands: the call returns, no panic (recovered or fatal: workers run under a 6 GiB address-space limit so that a multi-GB allocation is a prompt, attributable death; the input is written to a canary file first), bytes allocated (TotalAlloc delta) <= 64 x (input + returned value) + 4 MiB, Read calls <= 4 x len + 64; after Receive, whatever is visible is consistent; distinct_nontrivial = distinct (entry point, mutation family, corpus object)",
+		Rule:        "for every decoder entry point (packfile reader loop, commit, table, block, block validation, string list read/readbytes/validation, block index, profile, uint list, pkt-line, objects.Get* through a store incl. the s2 layer) and ObjectReceiver.Receive: a seeded corpus of valid encodings is mutated structurally - every truncation, every single-bit flip (sampled above the budget), every 1/2/4-byte window set to {0,1,0x7F,0x80,0xFF,0xFFFD..0xFFFF,2^31-1,2^32-2,2^32-1} (a superset of all count and length fields) and every 1/2-byte window set to 2..17 (tags, field numbers, indices into short tables), strided over all offsets when above the budget, slice duplication/deletion/junk splices - plus hand-made hostile headers; per input the oracle demands: the call returns, no panic (recovered or fatal: workers run under a 6 GiB address-space limit so that a multi-GB allocation is a prompt, attributable death; the input is written to a canary file first), bytes allocated (TotalAlloc delta) <= 64 x (input + returned value) + 4 MiB, Read calls <= 4 x len + 64; after Receive, whatever is visible is consistent; distinct_nontrivial = distinct (entry point, mutation family, corpus object)",
 		Assumptions: []string{"inputs are sampled around valid encodings, where decoders go deep", "StrListDecoder.Decode / UintListDecoder.Decode have no error return and are only applied to validated bytes: not entry points"},
 		Gen: func(tier string, seed int64) []fw.Case {
 			l := fw.NewCaseList("C17", tier, seed)
@@ -826,7 +876,7 @@ func init() {
 			}
 			for _, e := range entries {
 				for corpus := 0; corpus < 3; corpus++ {
-					for _, m := range []string{"truncate", "bitflip", "field", "splice"} {
+					for _, m := range []string{"truncate", "bitflip", "field", "index", "splice"} {
 						b := budget
 						if m == "splice" {
 							b = budget / 4
